@@ -92,8 +92,9 @@ def _check_on(c, case, stats: Stats) -> None:
         head, _, tail = s.partition(d)
         if not got.endswith(d + tail) or got[: len(got) - len(d + tail)] != model.standardize_prefix(head):
             raise Violation(f"standardize_curie({s!r}) = {got!r} rewrote more than the prefix part")
-        if d in model.standardize_prefix(head):
-            # a canonical prefix that contains the delimiter cannot be written back as a CURIE of the same converter
+        canon = model.standardize_prefix(head)
+        if (canon + d).find(d) != len(canon):
+            # a canonical prefix that contains the delimiter - or whose end overlaps with it (':' before '::') - cannot be written back as a CURIE of the same converter
             # (CURIEs split at the FIRST delimiter, C02): the two re-parsing laws are not claimed there
             stats.cls("canonical-prefix-contains-delimiter:reparse-laws-skipped")
             continue
